@@ -22,7 +22,7 @@ func init() {
 		Technique: "table agreement (HopHeaders literal vs RFC 7540 8.1.2.2), value-flow of the response header map and status, guard analysis on go/ssa of writeChunk / encodeHeaders / responseWriter.write, feasible-path enumeration of writeResHeaders.writeFrame",
 		Meta: core.Meta{
 			Level:       "other",
-			Explanation: "Decides structural clauses of the HTTP/2 response writer (bfe_http2): (1) the HopHeaders table contains, in canonical spelling and with value true, every connection-specific field of RFC 7540 8.1.2.2 and is never mutated after package initialisation; (2) cloneHeader copies a key only when HopHeaders[key] is false; (3) responseWriterState.snapHeader is assigned only cloneHeader(rws.handlerHeader) and status only the WriteHeader argument under !wroteHeader; (4) in writeChunk the response HEADERS request carries h = rws.snapHeader, httpResCode = rws.status, the stream's id, is sent only under !sentHeader after sentHeader was set, ends the stream whenever the request method is HEAD and otherwise only under handlerDone && !hasTrailers && len(p)==0; (5) every DATA write (writeDataFromHandler, called only from writeChunk) is excluded for HEAD, carries exactly the chunk p, is preceded by the response HEADERS, and may carry END_STREAM only under handlerDone && !hasTrailers; responseWriter.write hands bytes to the buffer only when bodyAllowedForStatus(status), which is false for 1xx, 204 and 304; (6) the trailers HEADERS request is the only one with trailers set, has no status, always has endStream true, is issued only under handlerDone && hasTrailers and no DATA can follow it; (7) encodeHeaders emits a field only with the name returned by lowerHeader (a table hit or strings.ToLower), after validHeaderFieldName(name) and validHeaderFieldValue(value), and transfer-encoding only with value trailers; writeResHeaders.writeFrame emits :status (from httpResCode) before any regular field and its fixed names are lower-case; (8) on every feasible successful path writeResHeaders.writeFrame either emits a HEADERS frame or was not asked to end the stream (a request that silently produces no frame loses END_STREAM); (9) inside writeChunk no call that may add to rws.trailers (the Trailer declarations of the header snapshot via declareTrailer, promoteUndeclaredTrailers; found through static callees and function-value arguments) is reachable from an evaluation of rws.hasTrailers(): the trailer set is complete before END_STREAM is first decided (known finding: promoteUndeclaredTrailers runs after the response HEADERS decision, so \"Trailer:\"-prefixed trailers of a handler that writes no body and never flushes are dropped); (10) pooled objects of bfe_http2 (sorterPool, writeDataPool, responseWriterStatePool, bufWriterPool, fhBytes): after a plain sync.Pool.Put neither the object nor a value sharing its storage (results of calls that received it, e.g. the key slice of sorter.Keys; addresses and loads inside it) is used again, and with a deferred Put no such value is returned, stored into outliving memory or sent, so the key order of a header block cannot be rewritten by another goroutine while it is encoded; (11) the declared-trailer set: every insertion into rws.trailers appends the result of CanonicalHeaderKey and is controlled by a negative strSliceContains test of that very value on rws.trailers of the same response (a test on another spelling of the name does not count), strSliceContains reports membership by element equality: a trailer announced twice, in any spelling, is stored and sent once; (12) write order: every call of writeChunk other than the buffer's sink (chunkWriter.Write, which must forward exactly its argument to its own responseWriterState) is made only where rws.bw is known empty (controlled by Buffered() == 0 of the same rws, or dominated by rws.bw.Flush() with no buffered write in between), so nothing overtakes bytes still held in the response buffer. Not covered: byte equality of body and trailers with what the handler wrote; END_STREAM exactly once over a whole response (a history of writeChunk calls); header keys the handler stored in non-canonical spelling; HPACK encoding itself (C30/C31); trailer declarations that are skipped on some path without any hasTrailers() evaluation preceding them; pooled objects that escape before the Put through struct fields of other objects or channels (writeDataFromHandler hands its writeData to the serve loop and relies on the done channel).",
+			Explanation: "Decides structural clauses of the HTTP/2 response writer (bfe_http2): (1) the HopHeaders table contains, in canonical spelling and with value true, every connection-specific field of RFC 7540 8.1.2.2 and is never mutated after package initialisation; (2) cloneHeader copies a key only when HopHeaders[key] is false; (3) responseWriterState.snapHeader is assigned only cloneHeader(rws.handlerHeader) and status only the WriteHeader argument under !wroteHeader; (4) in writeChunk the response HEADERS request carries h = rws.snapHeader, httpResCode = rws.status, the stream's id, is sent only under !sentHeader after sentHeader was set, ends the stream whenever the request method is HEAD and otherwise only under handlerDone && !hasTrailers && len(p)==0; (5) every DATA write (writeDataFromHandler, called only from writeChunk) is excluded for HEAD, carries exactly the chunk p, is preceded by the response HEADERS, and may carry END_STREAM only under handlerDone && !hasTrailers; responseWriter.write hands bytes to the buffer only when bodyAllowedForStatus(status), which is false for 1xx, 204 and 304; (6) the trailers HEADERS request is the only one with trailers set, has no status, always has endStream true, is issued only under handlerDone && hasTrailers and no DATA can follow it; (7) encodeHeaders emits a field only with the name returned by lowerHeader (a table hit or strings.ToLower), after validHeaderFieldName(name) and validHeaderFieldValue(value), and transfer-encoding only with value trailers; writeResHeaders.writeFrame emits :status (from httpResCode) before any regular field and its fixed names are lower-case; (8) on every feasible successful path writeResHeaders.writeFrame either emits a HEADERS frame or was not asked to end the stream (a request that silently produces no frame loses END_STREAM); (9) inside writeChunk no call that may add to rws.trailers (the Trailer declarations of the header snapshot via declareTrailer, promoteUndeclaredTrailers; found through static callees and function-value arguments) is reachable from an evaluation of rws.hasTrailers(): the trailer set is complete before END_STREAM is first decided (known finding: promoteUndeclaredTrailers runs after the response HEADERS decision, so \"Trailer:\"-prefixed trailers of a handler that writes no body and never flushes are dropped); (10) pooled objects of bfe_http2 (sorterPool, writeDataPool, responseWriterStatePool, bufWriterPool, fhBytes): after a plain sync.Pool.Put neither the object nor a value sharing its storage (results of calls that received it, e.g. the key slice of sorter.Keys; addresses and loads inside it) is used again, and with a deferred Put no such value is returned, stored into outliving memory or sent, so the key order of a header block cannot be rewritten by another goroutine while it is encoded; (11) the declared-trailer set: every insertion into rws.trailers appends the result of CanonicalHeaderKey and is controlled by a negative strSliceContains test of that very value on rws.trailers of the same response (a test on another spelling of the name does not count), strSliceContains reports membership by element equality: a trailer announced twice, in any spelling, is stored and sent once; (12) write order: every call of writeChunk other than the buffer's sink (chunkWriter.Write, which must forward exactly its argument to its own responseWriterState) is made only where rws.bw is known empty (controlled by Buffered() == 0 of the same rws, or dominated by rws.bw.Flush() with no buffered write in between), so nothing overtakes bytes still held in the response buffer. Robustness: every anchor function is analysed together with its private helpers (unexported functions of bfe_http2 that are never used as values and whose every call site lies in the anchor or another such helper, depth <= 4): stores, calls and loops found there count as the anchor's; values are followed across the call boundary (a helper's parameter is the argument at its single call site, the result of a helper call is the one value the helper returns); guards hold inside a single-call-site helper when they hold at its call site; branch facts are read through negations, mirrored comparisons, named booleans, short-circuit phis (the fact must follow on every edge that can yield the value, edges contradicting other known guards excluded) and boolean helper functions (the fact must follow at every return that can yield the value); dominance, must-pass and reachability are decided on the call-stack-sensitive supergraph of the region (calls of helpers entered, constant boolean results matched with the branch on them in the caller). Not followed: helpers that are used as function values or invoked through an interface, helpers called through defer or go, values passed through struct fields or closures' free variables into a helper, helpers with more than one call site for parameter identity (their code is still attributed to the anchor when all call sites lie in the region). Not covered: byte equality of body and trailers with what the handler wrote; END_STREAM exactly once over a whole response (a history of writeChunk calls); header keys the handler stored in non-canonical spelling; HPACK encoding itself (C30/C31); trailer declarations that are skipped on some path without any hasTrailers() evaluation preceding them; pooled objects that escape before the Put through struct fields of other objects or channels (writeDataFromHandler hands its writeData to the serve loop and relies on the done channel).",
 			RuleText:    "obligations = required keys of HopHeaders, mutators of HopHeaders, each map store of cloneHeader, each writer of snapHeader/status, the fields and guards of each writeHeaders request in writeChunk, each writeDataFromHandler call, each buffered write of responseWriter.write, the false-returns of bodyAllowedForStatus, each encKV call of encodeHeaders and writeResHeaders.writeFrame, each return of lowerHeader, each frame-less successful path of writeResHeaders.writeFrame, each call of writeChunk that may write rws.trailers, each sync.Pool.Put of the package, each insertion into rws.trailers, each call of writeChunk",
 			Assumptions: []string{"handlers fill the header map through bfe_http.Header.Set/Add (canonical keys)"},
 		},
@@ -56,6 +56,11 @@ func init() {
 			{Name: "silent-sorted-keys-helper-copies", File: "bfe_http2/write.go", Old: "func encodeHeaders(enc *hpack.Encoder, h http.Header, keys []string) int {\n	headerSize := 0 // orignal header size\n	if keys == nil {\n		sorter := sorterPool.Get().(*sorter)\n		// Using defer here, since the returned keys from the\n		// sorter.Keys method is only valid until the sorter\n		// is returned:\n		defer sorterPool.Put(sorter)\n		keys = sorter.Keys(h)\n	}\n", New: "func sortedHeaderKeys(h http.Header) []string {\n	sorter := sorterPool.Get().(*sorter)\n	defer sorterPool.Put(sorter)\n	return append([]string(nil), sorter.Keys(h)...)\n}\n\nfunc encodeHeaders(enc *hpack.Encoder, h http.Header, keys []string) int {\n	headerSize := 0 // orignal header size\n	if keys == nil {\n		keys = sortedHeaderKeys(h)\n	}\n", Silent: true},
 			{Name: "silent-declare-before-date", File: "bfe_http2/server.go", Old: "		var date string\n		if _, ok := rws.snapHeader[\"Date\"]; !ok {\n			// TODO(bradfitz): be faster here, like net/http? measure.\n			date = time.Now().UTC().Format(http.TimeFormat)\n		}\n\n		for _, v := range rws.snapHeader[\"Trailer\"] {\n			foreachHeaderElement(v, rws.declareTrailer)\n		}\n", New: "		for _, v := range rws.snapHeader[\"Trailer\"] {\n			foreachHeaderElement(v, rws.declareTrailer)\n		}\n		var date string\n		if _, ok := rws.snapHeader[\"Date\"]; !ok {\n			date = time.Now().UTC().Format(http.TimeFormat)\n		}\n", Silent: true},
 			{Name: "silent-rename-chunk", File: "bfe_http2/server.go", Old: "	endStream := rws.handlerDone && !rws.hasTrailers()\n	if len(p) > 0 || endStream {\n		// only send a 0 byte DATA frame if we're ending the stream.\n		if err := rws.conn.writeDataFromHandler(rws.stream, p, endStream); err != nil {", New: "	last := rws.handlerDone && !rws.hasTrailers()\n	if last || len(p) > 0 {\n		if err := rws.conn.writeDataFromHandler(rws.stream, p, last); err != nil {", Silent: true},
+			{Name: "silent-trailers-request-in-helper", File: "bfe_http2/server.go", Old: "\tif rws.handlerDone && rws.hasTrailers() {\n\t\terr = rws.conn.writeHeaders(rws.stream, &writeResHeaders{\n\t\t\tstreamID:  rws.stream.id,\n\t\t\th:         rws.handlerHeader,\n\t\t\ttrailers:  rws.trailers,\n\t\t\tendStream: true,\n\t\t})\n\t\treturn len(p), err\n\t}\n\treturn len(p), nil\n}\n", New: "\tif rws.handlerDone && rws.hasTrailers() {\n\t\terr = rws.sendTrailers()\n\t\treturn len(p), err\n\t}\n\treturn len(p), nil\n}\n\nfunc (rws *responseWriterState) sendTrailers() error {\n\treturn rws.conn.writeHeaders(rws.stream, &writeResHeaders{\n\t\tstreamID:  rws.stream.id,\n\t\th:         rws.handlerHeader,\n\t\ttrailers:  rws.trailers,\n\t\tendStream: true,\n\t})\n}\n", Silent: true},
+			{Name: "silent-clone-filter-positive-if", File: "bfe_http2/server.go", Old: "\t\tif HopHeaders[k] {\n\t\t\tcontinue\n\t\t}\n\n\t\tvv2 := make([]string, len(vv))\n\t\tcopy(vv2, vv)\n\t\th2[k] = vv2\n", New: "\t\tif !HopHeaders[k] {\n\t\t\tvv2 := make([]string, len(vv))\n\t\t\tcopy(vv2, vv)\n\t\t\th2[k] = vv2\n\t\t}\n", Silent: true},
+			{Name: "silent-status-early-return", File: "bfe_http2/server.go", Old: "\tif !rws.wroteHeader {\n\t\trws.wroteHeader = true\n\t\trws.status = code\n\t\tif len(rws.handlerHeader) > 0 {\n\t\t\trws.snapHeader = cloneHeader(rws.handlerHeader)\n\t\t}\n\t}\n", New: "\tif rws.wroteHeader {\n\t\treturn\n\t}\n\trws.wroteHeader = true\n\trws.status = code\n\tif len(rws.handlerHeader) > 0 {\n\t\trws.snapHeader = cloneHeader(rws.handlerHeader)\n\t}\n", Silent: true},
+			{Name: "silent-encoder-nil-guard-and-skip-count", File: "bfe_http2/write.go", Old: "\t\t\tif isTE && v != \"trailers\" {\n\t\t\t\tcontinue\n\t\t\t}\n\t\t\theaderSize += encKV(enc, k, v)\n", New: "\t\t\tif isTE && v != \"trailers\" {\n\t\t\t\tcontinue\n\t\t\t}\n\t\t\tif enc == nil {\n\t\t\t\tcontinue\n\t\t\t}\n\t\t\theaderSize += encKV(enc, k, v)\n", Silent: true},
+			{Name: "silent-status-text-local", File: "bfe_http2/write.go", Old: "\t\tencKV(enc, \":status\", httpCodeString(w.httpResCode))\n", New: "\t\tstatusText := httpCodeString(w.httpResCode)\n\t\tencKV(enc, \":status\", statusText)\n", Silent: true},
 		},
 	})
 }
@@ -68,6 +73,8 @@ func runC38(c *core.Ctx) {
 	if e == nil {
 		return
 	}
+	e.declare("bodyAllowedForStatus", "cloneHeader", "encodeHeaders", "lowerHeader", "responseWriter.write", "responseWriterState.writeChunk",
+		"responseWriterState.writeHeader", "writeResHeaders.writeFrame", "strSliceContains", "responseWriterState.declareTrailer", "responseWriterState.promoteUndeclaredTrailers", "responseWriterState.hasTrailers")
 	rwsField := func(n string) *types.Var { return e.field("responseWriterState." + n) }
 	snapF, statusF, hhF, sentF, doneF, trailersF, streamF, wroteHdrF := rwsField("snapHeader"), rwsField("status"), rwsField("handlerHeader"), rwsField("sentHeader"), rwsField("handlerDone"), rwsField("trailers"), rwsField("stream"), rwsField("wroteHeader")
 	idF := e.field("stream.id")
@@ -175,10 +182,10 @@ func runC38(c *core.Ctx) {
 				continue
 			}
 			n++
-			okG := h2bGuarded(mu.Block(), func(r h2bRel) bool {
+			okG := e.guarded(mu.Block(), func(r h2bRel) bool {
 				return r.Flag(false, func(v ssa.Value) bool {
 					lk, ok := v.(*ssa.Lookup)
-					if !ok || !h2bEq(lk.Index, mu.Key) {
+					if !ok || !e.eq(lk.Index, mu.Key) {
 						return false
 					}
 					u, ok := lk.X.(*ssa.UnOp)
@@ -190,7 +197,7 @@ func runC38(c *core.Ctx) {
 				})
 			})
 			c.Check("clone-filter", fmt.Sprintf("cloneHeader:copy#%d", n), mu.Pos(), okG && h2bIsRangeElem(mu.Key),
-				"cloneHeader copies a header key without HopHeaders[key] having been found false; guards: "+h2bGuardList(mu.Block()))
+				"cloneHeader copies a header key without HopHeaders[key] having been found false; guards: "+e.guardList(mu.Block()))
 			retOK := false
 			for _, r := range core.Returns(fn) {
 				if len(r.Results) == 1 && r.Results[0] == mu.Map {
@@ -205,22 +212,22 @@ func runC38(c *core.Ctx) {
 	// ---- (3) writers of snapHeader and status ---------------------------------
 	for _, s := range core.FieldStores(e.fns, snapF) {
 		base, _ := h2bStoreField(s.Store, snapF)
-		call, ok := h2bIsCall(s.Store.Val, "cloneHeader")
+		call, ok := h2bIsCall(e.rep(s.Store.Val), "cloneHeader")
 		okV := false
 		if ok && len(call.Call.Args) == 1 {
-			b, isHH := h2bFieldLoad(call.Call.Args[0], hhF)
-			okV = isHH && h2bEq(b, base)
+			b, isHH := h2bFieldLoad(e.rep(call.Call.Args[0]), hhF)
+			okV = isHH && e.eq(b, base)
 		}
-		c.Check("snap-source", h2bShort(s.Fn), s.Store.Pos(), okV,
+		c.Check("snap-source", h2bShort(e.home(s.Fn, c.P.Func(h2bPkg, "responseWriterState.writeHeader"))), s.Store.Pos(), okV,
 			"responseWriterState.snapHeader is assigned "+core.Render(s.Store.Val)+" in "+h2bShort(s.Fn)+"; the header snapshot must be cloneHeader(rws.handlerHeader) so that connection-specific fields are removed")
 	}
 	c.Min("snap-source", 1)
 	writeHeaderFn := e.fn("responseWriterState.writeHeader")
 	for _, s := range core.FieldStores(e.fns, statusF) {
-		ok := writeHeaderFn != nil && s.Fn == writeHeaderFn && len(s.Fn.Params) == 2 && h2bEq(s.Store.Val, s.Fn.Params[1]) &&
-			h2bGuarded(s.Store.Block(), func(r h2bRel) bool { return r.Flag(false, isLoadOf(wroteHdrF)) })
-		c.Check("status-writers", h2bShort(s.Fn), s.Store.Pos(), ok,
-			"responseWriterState.status is written with "+core.Render(s.Store.Val)+" in "+h2bShort(s.Fn)+"; it must be the first WriteHeader code only (under !wroteHeader); guards: "+h2bGuardList(s.Store.Block()))
+		ok := writeHeaderFn != nil && e.within(s.Fn, writeHeaderFn) && len(writeHeaderFn.Params) == 2 && e.rep(s.Store.Val) == e.rep(writeHeaderFn.Params[1]) &&
+			e.guarded(s.Store.Block(), func(r h2bRel) bool { return r.Flag(false, isLoadOf(wroteHdrF)) })
+		c.Check("status-writers", h2bShort(e.home(s.Fn, writeHeaderFn)), s.Store.Pos(), ok,
+			"responseWriterState.status is written with "+core.Render(s.Store.Val)+" in "+h2bShort(s.Fn)+"; it must be the first WriteHeader code only (under !wroteHeader); guards: "+e.guardList(s.Store.Block()))
 	}
 	c.Min("status-writers", 1)
 
@@ -228,6 +235,7 @@ func runC38(c *core.Ctx) {
 	wc := e.fn("responseWriterState.writeChunk")
 	if wc != nil {
 		const k = "writeChunk:"
+		wcReg := e.region(wc) // writeChunk with its private helpers
 		rws := ssa.Value(wc.Params[0])
 		p := ssa.Value(wc.Params[1])
 		isHeadXY := func(x, y ssa.Value) bool {
@@ -244,10 +252,10 @@ func runC38(c *core.Ctx) {
 			return ok && b.Op == token.EQL && isHeadXY(b.X, b.Y)
 		}
 		relNotHead := func(r h2bRel) bool { return r.Op == token.NEQ && isHeadXY(r.X, r.Y) }
-		notHead := func(b *ssa.BasicBlock) bool { return h2bGuarded(b, relNotHead) }
+		notHead := func(b *ssa.BasicBlock) bool { return e.guarded(b, relNotHead) }
 		isHasTrailers := func(v ssa.Value) bool {
 			call, ok := h2bIsCall(v, "responseWriterState.hasTrailers")
-			return ok && len(call.Call.Args) == 1 && h2bEq(call.Call.Args[0], rws)
+			return ok && len(call.Call.Args) == 1 && e.eq(call.Call.Args[0], rws)
 		}
 		lenPZero := func(r h2bRel) bool {
 			return r.Cmp(token.EQL, func(v ssa.Value) bool {
@@ -256,7 +264,7 @@ func runC38(c *core.Ctx) {
 					return false
 				}
 				b, ok := call.Call.Value.(*ssa.Builtin)
-				return ok && b.Name() == "len" && h2bEq(call.Call.Args[0], p)
+				return ok && b.Name() == "len" && e.eq(call.Call.Args[0], p)
 			}, h2bIsInt(0))
 		}
 		// edgeFacts: the facts established on the edge pred->b
@@ -269,8 +277,8 @@ func runC38(c *core.Ctx) {
 			return false
 		}
 		var dataCalls, hdrCalls []ssa.CallInstruction
-		dataCalls = core.Calls(wc, h2bName("serverConn.writeDataFromHandler"))
-		hdrCalls = core.Calls(wc, h2bName("serverConn.writeHeaders"))
+		dataCalls = wcReg.calls("serverConn.writeDataFromHandler")
+		hdrCalls = wcReg.calls("serverConn.writeHeaders")
 		isData := func(in ssa.Instruction) bool {
 			for _, d := range dataCalls {
 				if in == d.(ssa.Instruction) {
@@ -302,17 +310,20 @@ func runC38(c *core.Ctx) {
 					okID = isLoadOf(streamF)(b)
 				}
 				c.Check("headers-frame", kk+"stream-id", in.Pos(), okID, "the response HEADERS request is addressed to "+core.Render(fl["streamID"])+", expected rws.stream.id")
-				c.Check("headers-frame", kk+"once", in.Pos(), h2bGuarded(in.Block(), func(r h2bRel) bool { return r.Flag(false, isLoadOf(sentF)) }),
+				c.Check("headers-frame", kk+"once", in.Pos(), e.guarded(in.Block(), func(r h2bRel) bool { return r.Flag(false, isLoadOf(sentF)) }),
 					"the response HEADERS request is not guarded by !rws.sentHeader: the header block can be sent twice")
 				var setSent ssa.Instruction
-				for _, s := range core.FieldStores([]*ssa.Function{wc}, sentF) {
+				for _, s := range core.FieldStores(wcReg.fns, sentF) {
 					if v, ok := h2bBool(s.Store.Val); ok && v {
 						setSent = s.Store
 					}
 				}
-				c.Check("headers-frame", kk+"marks-sent", in.Pos(), setSent != nil && core.Dominates(setSent, in), "rws.sentHeader is not set before the response HEADERS request is issued")
+				c.Check("headers-frame", kk+"marks-sent", in.Pos(), setSent != nil && wcReg.dominates(setSent, in), "rws.sentHeader is not set before the response HEADERS request is issued")
 				// endStream: HEAD => true; true (otherwise) => handlerDone && !hasTrailers && len(p)==0
 				es := fl["endStream"]
+				if es != nil {
+					es = e.rep(es) // the request may be built in a helper that receives the decision
+				}
 				headOK, otherOK := es != nil, es != nil
 				type edge struct {
 					v    ssa.Value
@@ -329,7 +340,7 @@ func runC38(c *core.Ctx) {
 				}
 				has := func(ed edge, m func(h2bRel) bool) bool {
 					if ed.pred == nil {
-						return h2bGuarded(ed.blk, m)
+						return e.guarded(ed.blk, m)
 					}
 					return edgeHas(ed.pred, ed.blk, m)
 				}
@@ -362,10 +373,10 @@ func runC38(c *core.Ctx) {
 					"the trailers HEADERS request selects keys "+core.Render(fl["trailers"])+", expected the declared trailers rws.trailers")
 				_, hasStatus := fl["httpResCode"]
 				c.Check("trailers-frame", kk+"no-status", in.Pos(), !hasStatus, "the trailers HEADERS request carries a :status")
-				okG := h2bGuarded(in.Block(), func(r h2bRel) bool { return r.Flag(true, isLoadOf(doneF)) }) &&
-					h2bGuarded(in.Block(), func(r h2bRel) bool { return r.Flag(true, isHasTrailers) })
-				c.Check("trailers-frame", kk+"when", in.Pos(), okG, "trailers are sent although the handler is not done or no trailers are declared; guards: "+h2bGuardList(in.Block()))
-				c.Check("trailers-frame", kk+"after-body", in.Pos(), core.ReachAvoiding(wc, in, nil, isData) == nil, "a DATA write is reachable after the trailers were sent")
+				okG := e.guarded(in.Block(), func(r h2bRel) bool { return r.Flag(true, isLoadOf(doneF)) }) &&
+					e.guarded(in.Block(), func(r h2bRel) bool { return r.Flag(true, isHasTrailers) })
+				c.Check("trailers-frame", kk+"when", in.Pos(), okG, "trailers are sent although the handler is not done or no trailers are declared; guards: "+e.guardList(in.Block()))
+				c.Check("trailers-frame", kk+"after-body", in.Pos(), wcReg.reachAfter(in, nil, isData) == nil, "a DATA write is reachable after the trailers were sent")
 				c.Check("trailers-frame", kk+"not-for-head", in.Pos(), notHead(in.Block()), "trailers can be sent in response to HEAD after the stream was already ended by the HEADERS frame")
 			}
 		}
@@ -375,7 +386,7 @@ func runC38(c *core.Ctx) {
 
 		// DATA
 		for _, s := range e.callSites("serverConn.writeDataFromHandler") {
-			if s.Fn != wc {
+			if !wcReg.in[s.Fn] {
 				c.Check("data-frame", h2bShort(s.Fn)+":caller", s.Call.Pos(), false, "writeDataFromHandler is called from "+h2bShort(s.Fn)+": response DATA bypasses writeChunk's HEAD / END_STREAM rules")
 			}
 		}
@@ -386,12 +397,12 @@ func runC38(c *core.Ctx) {
 			if len(args) != 4 {
 				continue
 			}
-			c.Check("data-frame", kk+"not-for-head", in.Pos(), notHead(in.Block()), "a DATA frame can be written in response to a HEAD request; guards: "+h2bGuardList(in.Block()))
-			c.Check("data-frame", kk+"bytes", in.Pos(), h2bEq(args[2], p), "the DATA write carries "+core.Render(args[2])+", expected the chunk handed to writeChunk")
+			c.Check("data-frame", kk+"not-for-head", in.Pos(), notHead(in.Block()), "a DATA frame can be written in response to a HEAD request; guards: "+e.guardList(in.Block()))
+			c.Check("data-frame", kk+"bytes", in.Pos(), e.eq(args[2], p), "the DATA write carries "+core.Render(args[2])+", expected the chunk handed to writeChunk")
 			c.Check("data-frame", kk+"stream", in.Pos(), isLoadOf(streamF)(args[1]), "the DATA write goes to "+core.Render(args[1])+", expected rws.stream")
 			// END_STREAM only if handlerDone && !hasTrailers
 			okES := true
-			switch x := args[3].(type) {
+			switch x := e.rep(args[3]).(type) {
 			case *ssa.Phi:
 				for j, ed := range x.Edges {
 					pred := x.Block().Preds[j]
@@ -417,16 +428,16 @@ func runC38(c *core.Ctx) {
 			// HEADERS first
 			var sentTest *ssa.If
 			var unsent *ssa.BasicBlock
-			for _, ifi := range h2bIfs(wc) {
+			for _, ifi := range wcReg.ifs() {
 				for j, pol := range []bool{true, false} {
 					if h2bRelOfCond(ifi.Cond, pol).Flag(false, isLoadOf(sentF)) {
 						sentTest, unsent = ifi, ifi.Block().Succs[j]
 					}
 				}
 			}
-			okH := sentTest != nil && respHdr != nil && core.Dominates(sentTest, in)
+			okH := sentTest != nil && respHdr != nil && wcReg.dominates(sentTest, in)
 			if okH {
-				okH = h2bReachFromBlock(unsent, h2bInstrIs(respHdr), h2bInstrIs(in)) == nil
+				okH = wcReg.reachFromBlock(unsent, h2bInstrIs(respHdr), h2bInstrIs(in)) == nil
 			}
 			c.Check("data-frame", kk+"after-headers", in.Pos(), okH, "a DATA frame can be written before the response HEADERS request (sentHeader false and no writeHeaders on the path)")
 		}
@@ -436,21 +447,25 @@ func runC38(c *core.Ctx) {
 	// ---- (5b) body-less statuses --------------------------------------------------
 	if fn := e.fn("responseWriter.write"); fn != nil {
 		n := 0
-		for _, call := range core.AllCalls(fn) {
+		for _, x := range e.region(fn).all() {
+			call, isCall := x.(ssa.CallInstruction)
+			if !isCall {
+				continue
+			}
 			sc := call.Common().StaticCallee()
 			if sc == nil || sc.Pkg == nil || sc.Pkg.Pkg.Path() != "bufio" || !strings.HasPrefix(sc.Name(), "Write") {
 				continue
 			}
 			n++
 			in := call.(ssa.Instruction)
-			ok := h2bGuarded(in.Block(), func(r h2bRel) bool {
+			ok := e.guarded(in.Block(), func(r h2bRel) bool {
 				return r.Flag(true, func(v ssa.Value) bool {
 					cl, ok := h2bIsCall(v, "bodyAllowedForStatus")
 					return ok && len(cl.Call.Args) == 1 && isLoadOf(statusF)(cl.Call.Args[0])
 				})
 			})
 			c.Check("no-body-status", fmt.Sprintf("responseWriter.write:buffer#%d", n), in.Pos(), ok,
-				"body bytes are buffered without bodyAllowedForStatus(rws.status) having been found true; guards: "+h2bGuardList(in.Block()))
+				"body bytes are buffered without bodyAllowedForStatus(rws.status) having been found true; guards: "+e.guardList(in.Block()))
 		}
 	}
 	if fn := e.fn("bodyAllowedForStatus"); fn != nil && len(fn.Params) == 1 {
@@ -483,7 +498,7 @@ func runC38(c *core.Ctx) {
 
 	// ---- (7) encoding ------------------------------------------------------------
 	if fn := e.fn("encodeHeaders"); fn != nil {
-		for i, call := range core.Calls(fn, h2bName("encKV")) {
+		for i, call := range e.region(fn).calls("encKV") {
 			in := call.(ssa.Instruction)
 			kk := fmt.Sprintf("encodeHeaders:field#%d:", i+1)
 			args := call.Common().Args
@@ -491,32 +506,32 @@ func runC38(c *core.Ctx) {
 				continue
 			}
 			name, val := args[1], args[2]
-			_, isLower := h2bIsCall(name, "lowerHeader")
+			_, isLower := h2bIsCall(e.rep(name), "lowerHeader")
 			c.Check("encode", kk+"lower-cased", in.Pos(), isLower, "the field name written is "+core.Render(name)+", not the result of lowerHeader")
-			okN := h2bGuarded(in.Block(), func(r h2bRel) bool {
+			okN := e.guarded(in.Block(), func(r h2bRel) bool {
 				return r.Flag(true, func(v ssa.Value) bool {
 					cl, ok := h2bIsCall(v, "validHeaderFieldName")
-					return ok && cl.Call.Args[0] == name
+					return ok && e.rep(cl.Call.Args[0]) == e.rep(name)
 				})
 			})
-			c.Check("encode", kk+"name-validated", in.Pos(), okN, "the field is written without validHeaderFieldName having accepted the very name that is written; guards: "+h2bGuardList(in.Block()))
-			okV := h2bGuarded(in.Block(), func(r h2bRel) bool {
+			c.Check("encode", kk+"name-validated", in.Pos(), okN, "the field is written without validHeaderFieldName having accepted the very name that is written; guards: "+e.guardList(in.Block()))
+			okV := e.guarded(in.Block(), func(r h2bRel) bool {
 				return r.Flag(true, func(v ssa.Value) bool {
 					cl, ok := h2bIsCall(v, "validHeaderFieldValue")
-					return ok && cl.Call.Args[0] == val
+					return ok && e.rep(cl.Call.Args[0]) == e.rep(val)
 				})
 			})
-			c.Check("encode", kk+"value-validated", in.Pos(), okV, "the field is written without validHeaderFieldValue having accepted the very value that is written; guards: "+h2bGuardList(in.Block()))
+			c.Check("encode", kk+"value-validated", in.Pos(), okV, "the field is written without validHeaderFieldValue having accepted the very value that is written; guards: "+e.guardList(in.Block()))
 			isStr := func(s string) func(ssa.Value) bool {
 				return func(v ssa.Value) bool { k, ok := core.ConstString(v); return ok && k == s }
 			}
-			okTE := h2bGuarded(in.Block(), func(r h2bRel) bool {
-				if r.Cmp(token.NEQ, h2bIs(name), isStr("transfer-encoding")) || r.Cmp(token.EQL, h2bIs(val), isStr("trailers")) {
+			okTE := e.guarded(in.Block(), func(r h2bRel) bool {
+				if r.Cmp(token.NEQ, e.is(name), isStr("transfer-encoding")) || r.Cmp(token.EQL, e.is(val), isStr("trailers")) {
 					return true
 				}
 				// `isTE := k == "transfer-encoding"` tested as a flag
 				return r.Flag(false, func(v ssa.Value) bool {
-					return h2bRelOfCond(v, true).Cmp(token.EQL, h2bIs(name), isStr("transfer-encoding"))
+					return h2bRelOfCond(e.rep(v), true).Cmp(token.EQL, e.is(name), isStr("transfer-encoding"))
 				})
 			})
 			c.Check("encode", kk+"te-trailers-only", in.Pos(), okTE, "a transfer-encoding field other than `trailers` can be written (RFC 7540 8.1.2.2)")
@@ -546,10 +561,11 @@ func runC38(c *core.Ctx) {
 	wf := e.fn("writeResHeaders.writeFrame")
 	if wf != nil {
 		var statusKV, encCall ssa.Instruction
-		for _, call := range core.Calls(wf, h2bName("encodeHeaders")) {
+		wfReg := e.region(wf)
+		for _, call := range wfReg.calls("encodeHeaders") {
 			encCall = call.(ssa.Instruction)
 		}
-		for i, call := range core.Calls(wf, h2bName("encKV")) {
+		for i, call := range wfReg.calls("encKV") {
 			in := call.(ssa.Instruction)
 			args := call.Common().Args
 			name, isConst := core.ConstString(args[1])
@@ -561,7 +577,7 @@ func runC38(c *core.Ctx) {
 			okName := name == strings.ToLower(name)
 			if name == ":status" {
 				statusKV = in
-				cl, isCall := h2bIsCall(args[2], "httpCodeString")
+				cl, isCall := h2bIsCall(e.rep(args[2]), "httpCodeString")
 				f, _ := h2bAnyFieldLoad(func() ssa.Value {
 					if isCall && len(cl.Call.Args) == 1 {
 						return cl.Call.Args[0]
@@ -573,7 +589,7 @@ func runC38(c *core.Ctx) {
 			c.Check("encode", kk+":"+name, in.Pos(), okName, "fixed response field "+name+" is not lower-case or :status is not derived from httpResCode")
 		}
 		if statusKV != nil && encCall != nil {
-			c.Check("encode", "writeResHeaders.writeFrame:status-first", statusKV.Pos(), core.ReachAvoiding(wf, encCall, nil, h2bInstrIs(statusKV)) == nil && core.ReachAvoiding(wf, nil, nil, h2bInstrIs(statusKV)) != nil,
+			c.Check("encode", "writeResHeaders.writeFrame:status-first", statusKV.Pos(), e.region(wf).reachAfter(encCall, nil, h2bInstrIs(statusKV)) == nil && e.region(wf).reachAfter(nil, nil, h2bInstrIs(statusKV)) != nil,
 				":status can be written after regular header fields")
 		} else {
 			c.Check("encode", "writeResHeaders.writeFrame:status-first", wf.Pos(), false, "writeResHeaders.writeFrame no longer writes :status and then calls encodeHeaders")
@@ -643,17 +659,22 @@ func c38TrailersComplete(c *core.Ctx, e *h2bEnv, wc *ssa.Function, trailersF *ty
 		}
 		return nil
 	}
+	wcReg := e.region(wc)
 	var readers []ssa.Instruction
-	for _, call := range core.Calls(wc, h2bName("responseWriterState.hasTrailers")) {
+	for _, call := range wcReg.calls("responseWriterState.hasTrailers") {
 		readers = append(readers, call.(ssa.Instruction))
 	}
 	c.Check("trailers-complete", "writeChunk:decision-reads", wc.Pos(), len(readers) > 0, "writeChunk no longer consults rws.hasTrailers(): the rule that ties END_STREAM to the trailer set has lost its anchor")
 	seen := map[string]int{}
-	for _, call := range core.AllCalls(wc) {
+	for _, x := range wcReg.all() {
+		call, isCall := x.(ssa.CallInstruction)
+		if !isCall {
+			continue
+		}
 		cc := call.Common()
 		via := ""
-		if t := e.real(cc.StaticCallee()); t != nil && writes[t] {
-			via = h2bShort(t)
+		if t := e.real(cc.StaticCallee()); t != nil && writes[t] && !(wcReg.in[t] && t != wc) {
+			via = h2bShort(t) // (a private helper of writeChunk is looked into instead)
 		}
 		for _, a := range cc.Args {
 			if f := fnOf(a); f != nil && writes[f] {
@@ -678,7 +699,7 @@ func c38TrailersComplete(c *core.Ctx, e *h2bEnv, wc *ssa.Function, trailersF *ty
 			if r == in {
 				continue
 			}
-			if core.ReachAvoiding(wc, r, nil, h2bInstrIs(in)) != nil {
+			if wcReg.reachAfter(r, nil, h2bInstrIs(in)) != nil {
 				stale = r
 				break
 			}
